@@ -31,8 +31,8 @@ func init() {
 func runC18(r *Run) {
 	variant := []string{"clean", "hostile", "hostile", "switch"}[r.W.Pick(4)]
 	prot := pickProtocol(r)
-	if variant == "switch" && prot.Lower(version.Minecraft_1_20_2) {
-		prot = version.Minecraft_1_20_2.Protocol
+	if variant == "switch" && prot.Lower(version.Minecraft_1_20_2) && r.W.Pick(2) == 0 {
+		prot = version.Minecraft_1_20_2.Protocol // half of the switches with a client that re-enters configuration
 	}
 	r.Res.Variant = variant
 	w := newClassic(r, []string{"s1", "s2"}, nil)
@@ -75,9 +75,15 @@ func runC18(r *Run) {
 		for i := 0; i < n2; i++ {
 			ids2 = append(ids2, int64(1+r.W.Pick(pool)))
 		}
-		w.backends["s2"].Beh.OnConfig = func(bc *backendConn) {
+		s2send := func(bc *backendConn) {
 			sendAll(bc, ids2, r.W.Pick(2))
 			simrt.Sleep(50*time.Millisecond, "c18.s2-wait-replies")
+		}
+		if prot.GreaterEqual(version.Minecraft_1_20_2) {
+			w.backends["s2"].Beh.OnConfig = s2send
+		} else {
+			// older clients stay in play during the switch (the proxy sends a keep-alive of its own)
+			w.backends["s2"].Beh.OnJoined = s2send
 		}
 	}
 	clientSent := map[int64]int{}
